@@ -1,15 +1,31 @@
 #!/usr/bin/env python3
-"""Prints a markdown table of what the evidence files of the last runs report (used for DESIGN.md 9.6)."""
-import json, glob, os
-rows = []
-for f in sorted(glob.glob('/verif/evidence/C*.json')):
-    d = json.load(open(f)); c = d['coverage']
-    if d['level'] == 'model_checking':
-        size = f"states {c.get('states')}, transitions {c.get('transitions')}, histories {c.get('traces_validated_against_impl')}"
-    else:
-        size = f"evaluations {c.get('evaluations')}, non-trivial {c.get('distinct_nontrivial')}"
-        if 'programs' in c: size += f", programs {c['programs']}"
-    rows.append(f"| {d['property_id']} | {d['level']} | {d['tier']} | {d['wall_s']} | {size} | {c.get('exhaustive')} | {sum(c.get('known_findings_matched',{}).values())} |")
-print("| id | level | tier | wall s | coverage reported by the run | exhaustive within bounds | cases matching known findings |")
-print("|---|---|---|---|---|---|---|")
-print("\n".join(rows))
+"""Writes the measured-numbers tables (quick tier from /verif/evidence, thorough tier from /verif/evidence/thorough)
+into DESIGN.md between the NUMBERS markers."""
+import json, glob, os, re
+
+def table(pattern):
+    rows = []
+    for f in sorted(glob.glob(pattern)):
+        d = json.load(open(f)); c = d['coverage']
+        if d['level'] == 'model_checking':
+            size = f"states {c.get('states')}, transitions {c.get('transitions')}, histories executed on the real code {c.get('traces_validated_against_impl')}"
+        else:
+            size = f"evaluations {c.get('evaluations')}, non-trivial {c.get('distinct_nontrivial')}"
+            if 'programs' in c: size += f", programs {c['programs']}"
+        caps = c.get('caps_hit') or []
+        rows.append(f"| {d['property_id']} | {d['level']} | {d['wall_s']} | {size} | {'yes' if c.get('exhaustive') else 'no: ' + str(len(caps)) + ' cap(s) hit, see the evidence file'} | {sum((c.get('known_findings_matched') or {}).values())} |")
+    head = "| id | level | wall s | coverage reported by the run | exhaustive within the stated bounds | cases matching known findings |\n|---|---|---|---|---|---|\n"
+    return head + "\n".join(rows) + "\n"
+
+text = "Quick tier (last run on the unchanged tree):\n\n" + table('/verif/evidence/C*.json')
+if glob.glob('/verif/evidence/thorough/C*.json'):
+    text += "\nThorough tier (last run of each check on the unchanged tree; copies kept in `evidence/thorough/`):\n\n" + table('/verif/evidence/thorough/C*.json')
+p = '/verif/DESIGN.md'
+s = open(p).read()
+block = "<!-- NUMBERS-BEGIN -->\n" + text + "<!-- NUMBERS-END -->"
+if "<!-- NUMBERS-BEGIN -->" in s:
+    s = re.sub(r"<!-- NUMBERS-BEGIN -->.*<!-- NUMBERS-END -->", lambda m: block, s, flags=re.S)
+else:
+    s = s.replace("## Appendix A", "### 9.7 Measured numbers\n\nWritten by `tools/evidence_table.py` from the evidence files.\n\n" + block + "\n\n## Appendix A", 1)
+open(p, 'w').write(s)
+print(text[:600])
